@@ -15,7 +15,7 @@
 (define-fun emptyRM () (Array String Int) ((as const (Array String Int)) 0))
 (define-fun mapOf ((v Val)) MapC (ite ((_ is VMap) v) (mc v) emptyM))
 (define-fun isErr ((e ErrV)) Bool ((_ is E) e))
-(declare-const allocTop Int)
+
 
 ; ---- lists of values
 (define-fun-rec app ((a Lst) (b Lst)) Lst (ite ((_ is LNil) a) b (LCons (hd a) (app (tl a) b))))
